@@ -1,3 +1,4 @@
 import Proofs.CursorLemmas
 import Proofs.ImplV2
 import Proofs.Waveform
+import Proofs.Beatgrid
